@@ -294,6 +294,19 @@ def hand_cases(rng, tier="quick"):
                 return out
             for enc in (0, 1):
                 out.append(make_case(rng, role, body, enc=enc, xr=xr, segs_override=segsf))
+    # the same with the first requests handed over by the handshake (push_unread + the one event_read of
+    # receive_succeeded): run_b's `pre` path of machine_write_events.  An INTERESTED leads (the handshake itself
+    # parses a leading bitfield / extension / port message); behind it: both requests complete (the second waits
+    # after the hand-over) / the second incomplete / a HAVE behind them cut / only the extension handshake
+    for role in ("leech", "seed"):
+        body = [M(msg(2), "int"), hs, rq(0), rq(1), M(msg(4, be32(3)), "have"), rq(0), M(msg(1), "unchoke")]
+        for ho in (msg(2) + hs.raw + rq(0).raw + rq(1).raw, msg(2) + hs.raw + rq(0).raw + rq(1).raw[:9],
+                   msg(2) + hs.raw + rq(0).raw + rq(1).raw + msg(4, be32(3))[:6], msg(2) + hs.raw):
+            def segsf2(n):
+                return ["k0:%d,w" % n, "k0:w,%d,w" % n, "k0:" + ",".join(["1"] * n) + ",w",
+                        "k0:%d,w,%d,w" % (n // 2, n - n // 2), "k3:%d,w" % n]
+            for enc in (0, 1):
+                out.append(make_case(rng, role, body, enc=enc, xr="0111", ho=ho, segs_override=segsf2))
     # remote close in the middle of every kind of message / payload, every role
     for role in ROLES:
         whole = [M(msg(2), "int"), M(msg(4, be32(0)), "have"), M(msg(6, be32(0) + be32(0) + be32(1000)), "req"),
